@@ -1,6 +1,6 @@
 (* Model of avcc::AvcDecoderConfigurationRecord (src/avcc.rs). Index-checked accesses: an
    out-of-bounds index or split is PANIC. *)
-From H264 Require Import Base.Prelude Model.Nal Model.RefNal Model.Rbsp Model.BitReader Model.Sps Model.Context Model.Pps.
+From H264 Require Import Base.Prelude Model.Nal Model.RefNal Model.Rbsp Model.BitReader Model.Source Model.Sps Model.Context Model.Pps.
 
 Inductive avccerr :=
 | NotEnoughData (expected actual : nat)
@@ -91,3 +91,31 @@ Definition picture_parameter_sets (data : list byte) : out avccerr (list item) :
   | PANIC w => PANIC w
   | FUEL => FUEL
   end.
+
+Local Close Scope string_scope.
+(* create_context: the first error item / parse error aborts *)
+Fixpoint ctx_of_sps (l : list item) (c : context) : out avccerr context :=
+  match l with
+  | [] => OK c
+  | ItErr d :: _ => ERR (AvParamSet d)
+  | ItOk [] :: _ => PANIC "RefNal must be non-empty"
+  | ItOk nal :: r => match sps_from_bits (nal_bitsrc nal) with
+                     | OK s => ctx_of_sps r (put_seq_param_set c s)
+                     | ERR e => ERR (AvSps e) | PANIC w => PANIC w | FUEL => FUEL
+                     end
+  end.
+Fixpoint ctx_of_pps (l : list item) (c : context) : out avccerr context :=
+  match l with
+  | [] => OK c
+  | ItErr d :: _ => ERR (AvParamSet d)
+  | ItOk [] :: _ => PANIC "RefNal must be non-empty"
+  | ItOk nal :: r => match pps_from_bits c (nal_bitsrc nal) with
+                     | OK p => ctx_of_pps r (put_pic_param_set c p)
+                     | ERR e => ERR (AvPps e) | PANIC w => PANIC w | FUEL => FUEL
+                     end
+  end.
+Definition create_context (data : list byte) : out avccerr context :=
+  obind (sequence_parameter_sets data) (fun ss =>
+  obind (ctx_of_sps ss ctx_empty) (fun c =>
+  obind (picture_parameter_sets data) (fun ps => ctx_of_pps ps c))).
+
